@@ -64,7 +64,11 @@ def gen_history(rng):
             new('map', [rng.choice(cands)], f=rng.choice(['inc', 'dbl', 'ident']))
         else:
             k = min(len(cands), rng.choice([2, 2, 3]))
-            new(op, rng.sample(cands, k))
+            ups = rng.sample(cands, k)
+            if op == 'combine_latest' and rng.random() < 0.3:
+                new(op, ups, emit_on=[rng.randrange(k)], emit_on_form='single')      # emit_on = exactly one stream
+            else:
+                new(op, ups)
     build = [dict(nodes[n]) for n in order]
     has_child = set(u for n in order for u in nodes[n]['ups'])
     for n in list(order):
@@ -126,7 +130,17 @@ def gen_history(rng):
                     alive.discard(v)        # a destroyed sink is gone for good
         elif r < 0.95:
             u = rng.choice(sorted(n for n in alive if nodes[n]['op'] != 'sink'))
-            ops.append(['ghost', u, 'g%d' % len(ops)])
+            gid = 'g%d' % len(ops)
+            ops.append(['ghost', u, gid])
+            if rng.random() < 0.6:
+                # the unreferenced sink gets a second input, later loses its first one: it must go on serving the other
+                w = rng.choice(sorted(n for n in alive if nodes[n]['op'] != 'sink'))
+                ops.append(['emit', rng.choice(sources), rng.randrange(6)])
+                ops.append(['gconnect', w, gid])
+                ops.append(['emit', rng.choice(sources), rng.randrange(6)])
+                if rng.random() < 0.7:
+                    ops.append(['gdisconnect', gid])
+                    ops.append(['emit', rng.choice(sources), rng.randrange(6)])
         else:
             # create a sink-less probe branch, emit, drop it, gc, emit again
             u = rng.choice([n for n in alive if nodes[n]['op'] != 'sink'])
@@ -141,6 +155,18 @@ def gen_history(rng):
 
 # ---------------------------------------------------------------------------
 
+class MCombineLatestDyn(M.MCombineLatest):
+    """emit_on given by stream identity (it does not follow index shifts when inputs come and go)"""
+    emit_on_nodes = None
+
+    def update(self, x, who, md):
+        self.last[id(who)] = (x, M._mdl(md))
+        on = self.emit_on_nodes is None or any(who is n for n in self.emit_on_nodes)
+        if on and all(id(u) in self.last for u in self.ups):
+            vals = [self.last[id(u)] for u in self.ups]
+            self.emit(tuple(v for v, _ in vals), [m for _, ml in vals for m in ml])
+
+
 class DynModel:
     """reference interpreter with an editable edge set"""
 
@@ -148,11 +174,13 @@ class DynModel:
         self.nodes = {}
         self.calls = []
         for spec in build:
-            n = M.CLASSES[spec['op']](spec)
+            n = MCombineLatestDyn(spec) if spec['op'] == 'combine_latest' else M.CLASSES[spec['op']](spec)
             n.calls = self.calls
             self.nodes[spec['id']] = n
             for u in spec['ups']:
                 n.attach(self.nodes[u])
+            if spec['op'] == 'combine_latest' and spec.get('emit_on') is not None:
+                n.emit_on_nodes = [self.nodes[spec['ups'][i]] for i in spec['emit_on']]
         self.pending = {}      # zip id -> list of complete tuples present at its last disconnect (leniency)
 
     def connect(self, u, v):
@@ -221,6 +249,7 @@ def check_case(case, counters, sets):
         flowed = set()          # nodes that have received data
         tainted = set()
         ghosts, dropped_at = [], {}
+        ghost_refs, S_tmp = {}, []
         n_edits = n_edits_after_data = n_emits_after_edit = 0
         aborted = False
         for k, op in enumerate(ops):
@@ -284,6 +313,8 @@ def check_case(case, counters, sets):
                 continue
             n_edits += 1
             target = op[2] if kind in ('connect', 'disconnect') else op[1]
+            if kind in ('gconnect', 'gdisconnect'):
+                target = (op[2] if kind == 'gconnect' else op[1]) + 's'
             if kind in ('connect', 'disconnect', 'destroy') and (target in flowed):
                 n_edits_after_data += 1
             try:
@@ -313,8 +344,8 @@ def check_case(case, counters, sets):
                     log.name(m_, gm)
                     s_ = m_.sink(CallSink(gs, calls))
                     log.name(s_, gs)
+                    S_tmp[:] = [m_, s_]
                     del m_, s_              # the program keeps no reference: only the sink registry does
-                    gc.collect()
                     specs[gm] = {'id': gm, 'op': 'map', 'ups': [op[1]], 'f': 'inc'}
                     specs[gs] = {'id': gs, 'op': 'sink', 'ups': [gm]}
                     mm = M.MMap(specs[gm])
@@ -324,6 +355,32 @@ def check_case(case, counters, sets):
                     ms.attach(mm)
                     mdl.nodes[gm], mdl.nodes[gs] = mm, ms
                     ghosts.append(gs)
+                    import weakref as _wr
+                    ghost_refs[op[2]] = (_wr.ref(S_tmp[0]), _wr.ref(S_tmp[1]))
+                    del S_tmp[:]
+                    gc.collect()
+                elif kind in ('gconnect', 'gdisconnect'):
+                    gid = op[2] if kind == 'gconnect' else op[1]
+                    gm, gs = gid + 'm', gid + 's'
+                    m_, s_ = ghost_refs[gid][0](), ghost_refs[gid][1]()
+                    if s_ is None or (kind == 'gdisconnect' and m_ is None):
+                        add('C15:unreferenced-sink-collected', 'op %d %s: the unreferenced sink %s (or its branch) no longer exists '
+                            'although it was never destroyed' % (k, op, gs))
+                        aborted = True
+                        break
+                    if kind == 'gconnect':
+                        mdl.connect(op[1], gs)
+                        S[op[1]].connect(s_)
+                    else:
+                        mdl.disconnect(gm, gs)
+                        m_.disconnect(s_)
+                        # the map now has no consumer and nobody references it: it is collected and leaves the graph
+                        mm = mdl.nodes.pop(gm)
+                        for u_ in list(mm.ups):
+                            u_.children.remove(mm)
+                        specs.pop(gm, None)
+                    del m_, s_
+                    gc.collect()
                 elif kind == 'drop':
                     before = len(probe_calls[op[1]])
                     dropped_at[op[1]] = before
